@@ -478,8 +478,109 @@ func (ex *Exec) snapshotGlobals() {
 
 // ------------------------------------------------------------- stub registry
 
+// sync.Map: a keyed store behind the receiver's address (keys: concrete
+// strings). A store into a map that is a package-level variable of go-vise is
+// a write to process-wide state (footprint tracking, C19).
+type syncMapHost struct {
+	keys []string
+	vals []Value
+}
+
+func (ex *Exec) syncMapOf(recv Value) (*syncMapHost, *Value) {
+	p, ok := recv.(Ptr)
+	if !ok || p.P == nil {
+		ex.unsupported("sync.Map method on %s", describe(recv))
+	}
+	all, _ := ex.hostState["syncMaps"].(map[*Value]*syncMapHost)
+	if all == nil {
+		all = map[*Value]*syncMapHost{}
+		ex.hostState["syncMaps"] = all
+	}
+	m := all[p.P]
+	if m == nil {
+		m = &syncMapHost{}
+		all[p.P] = m
+	}
+	return m, p.P
+}
+
+func (ex *Exec) syncMapKey(v Value) string {
+	if iv, ok := v.(Iface); ok {
+		v = iv.V
+	}
+	if sv, ok := v.(Str); ok {
+		if c, ok := sv.Concrete(); ok {
+			return c
+		}
+	}
+	ex.unsupported("sync.Map key %s (only concrete strings are modelled)", describe(v))
+	return ""
+}
+
+func (ex *Exec) syncMapStore(cell *Value) {
+	if !ex.trackFoot {
+		return
+	}
+	if tag, ok := ex.shared[cell]; ok {
+		ex.oblige(ex.ts.False(), "footprint: write to "+tag+" memory (sync.Map)")
+	}
+	if g, ok := ex.hostState["globalCells"].(map[*Value]string); ok {
+		if name, ok := g[cell]; ok {
+			ex.oblige(ex.ts.False(), "footprint: write to package-level variable "+name+" (sync.Map)")
+		}
+	}
+}
+
 func initLibStubs() {
 	reg := func(name string, f intrinsicFn) { namedIntrinsics[name] = f }
+	reg("(*sync.Map).Load", func(ex *Exec, fn *ssa.Function, args []Value, caller *Frame) Value {
+		m, _ := ex.syncMapOf(args[0])
+		k := ex.syncMapKey(args[1])
+		for i, have := range m.keys {
+			if have == k {
+				return Tuple{m.vals[i], ex.ts.True()}
+			}
+		}
+		return Tuple{Iface{}, ex.ts.False()}
+	})
+	reg("(*sync.Map).Store", func(ex *Exec, fn *ssa.Function, args []Value, caller *Frame) Value {
+		m, cell := ex.syncMapOf(args[0])
+		k := ex.syncMapKey(args[1])
+		ex.syncMapStore(cell)
+		for i, have := range m.keys {
+			if have == k {
+				m.vals[i] = args[2]
+				return nil
+			}
+		}
+		m.keys, m.vals = append(m.keys, k), append(m.vals, args[2])
+		return nil
+	})
+	reg("(*sync.Map).LoadOrStore", func(ex *Exec, fn *ssa.Function, args []Value, caller *Frame) Value {
+		m, cell := ex.syncMapOf(args[0])
+		k := ex.syncMapKey(args[1])
+		for i, have := range m.keys {
+			if have == k {
+				return Tuple{m.vals[i], ex.ts.True()}
+			}
+		}
+		ex.syncMapStore(cell)
+		m.keys, m.vals = append(m.keys, k), append(m.vals, args[2])
+		return Tuple{args[2], ex.ts.False()}
+	})
+	reg("(*sync.Map).Delete", func(ex *Exec, fn *ssa.Function, args []Value, caller *Frame) Value {
+		m, cell := ex.syncMapOf(args[0])
+		k := ex.syncMapKey(args[1])
+		for i, have := range m.keys {
+			if have == k {
+				ex.syncMapStore(cell)
+				m.keys = append(m.keys[:i:i], m.keys[i+1:]...)
+				m.vals = append(m.vals[:i:i], m.vals[i+1:]...)
+				break
+			}
+		}
+		return nil
+	})
 	reg("text/template.New", func(ex *Exec, fn *ssa.Function, args []Value, caller *Frame) Value {
 		cell := new(Value)
 		// a template made before write tracking began (package initialiser,
